@@ -87,7 +87,7 @@ def run(ctx):
         if g is None:
             continue
         R.check_result_guard(ctx, "E4.zero", P, fk, "is_zero", ("param", "input"), exits=lambda fn, ev: [b for b, s in ev.sites.items() if s.callee[0] == "PrimeField::from_repr"])
-    F.check_iszero(ctx, P, "E8.iszero", check_asserts=False)
+    F.check_iszero(ctx, P, "E8.iszero", check_asserts=False, need=("zero",))
     imps = call_sites(P, lambda c, t: c.get("name") == "from_repr" and c.get("trait") == "PrimeField")
     for fn, bb, t in imps:
         ctx.ob("E7.from_repr", fn.key, fn.key in ("helpers::scalar_from_be_bytes", "helpers::scalar_from_le_bytes"), "PrimeField::from_repr may only be called by the zero-checking helpers", where=where(fn, bb))
